@@ -252,6 +252,14 @@ impl Drop for Guard {
 
 pub type InnerFut = Pin<Box<dyn Future<Output = Result<Resp, SimErr>> + Send + 'static>>;
 
+pub type NestedFut = Pin<Box<dyn Future<Output = ()> + Send + 'static>>;
+thread_local! {
+    /// How the inner service calls back into the stack it sits behind (set by a harness for the
+    /// run): gets the nested request, returns the future of that call (created synchronously,
+    /// inside the inner service's `call()`), or None if the stack was not ready at once.
+    pub static NESTED: std::cell::RefCell<Option<std::rc::Rc<dyn Fn(Req) -> Option<NestedFut>>>> = const { std::cell::RefCell::new(None) };
+}
+
 impl tower::Service<Req> for SimInner {
     type Response = Resp;
     type Error = SimErr;
@@ -406,8 +414,19 @@ impl tower::Service<Req> for SimInner {
             done: None,
         };
         let req_id = req.id;
+        let nested_req = world::with(|w| w.script.nested.get(&(svc, req.id)).cloned());
+        let nested_fut = nested_req.and_then(|nr| {
+            let f = NESTED.with(|n| n.borrow().clone());
+            f.and_then(|f| {
+                world::fault("inner_calls_back_into_the_stack");
+                f(nr)
+            })
+        });
         let busy = world::with(|w| w.script.busy.contains(&(svc, req.id)));
         Box::pin(async move {
+            if let Some(f) = nested_fut {
+                f.await;
+            }
             if busy {
                 // a never-completing busy call stays busy for longer than any generated timeout
                 let ms = if beh.out == Outcome::Never { 300 } else { beh.lat_ms };
